@@ -266,8 +266,8 @@ fn run_one(c: &mut Case) {
 }
 
 pub fn run(ctx: &Ctx, evidence: Option<&PathBuf>) -> i32 {
-    ctx.run_fixed("directed", ctx.dn(400), run_one);
-    let n = ctx.size3(20_000, 2_000_000, 5);
+    ctx.run_fixed("directed", if ctx.miri() { 2 } else { ctx.dn(400) }, run_one);
+    let n = ctx.size3(20_000, 2_000_000, 2);
     ctx.run_cases("closed-loop", n, run_one);
     ctx.gate("connections_completed", 200);
     ctx.gate("input_suspension_points_checked", 1000);
